@@ -37,7 +37,22 @@ def gen_oceanic(rng, i):
         u = wg.num(rng, 0.002, 0.2)
         spec['u'] = m['spreading velocity'] = u
         # ridge: a straight line through the footprint (cartesian: any azimuth; spherical: a meridian)
-        if sph:
+        if sph and name == 'half space model' and rng.random() < 0.5:
+            # an oblique ridge with a spreading velocity per ridge point, the plate across the date line (raw longitudes beyond +-180 on one
+            # side, so that the nearest ridge point is reached through the longitude alias): only the envelope, the attained top temperature
+            # and monotonicity in depth are judged for these (no closed form for the age is assumed)
+            cx = wg.R(rng.choice([-1, 1]) * rng.uniform(168, 180))
+            lon_r = wg.R(cx + rng.uniform(-0.8, 0.8) * hw)
+            tilt = wg.R(rng.uniform(2, 8) * rng.choice([-1, 1]))
+            half = wg.R(rng.uniform(8, 40))
+            ridge = [[[wg.R(lon_r - tilt), -half], [wg.R(lon_r + tilt), half]]]
+            v0, v1 = wg.num(rng, 0.01, 0.1), wg.num(rng, 0.01, 0.1)
+            spec['u'] = 0.5 * (v0 + v1)
+            m['spreading velocity'] = [[0, [[v0, v1]]]]
+            spec['ridge'] = ('oblique', lon_r)
+            spec['variable_u'] = True
+            poly = [(wg.R(cx - hw), wg.R(cy - hw)), (wg.R(cx + hw), wg.R(cy - hw)), (wg.R(cx + hw), wg.R(cy + hw)), (wg.R(cx - hw), wg.R(cy + hw))]
+        elif sph:
             lon_r = wg.R(cx + rng.uniform(-0.8, 0.8) * hw)
             ridge = [[[lon_r, -70.0], [lon_r, 70.0]]]
             spec['ridge'] = ('meridian', lon_r)
@@ -102,7 +117,7 @@ def gen_oceanic(rng, i):
                 dist = abs((sx - ax) * (by - ay) - (sy - ay) * (bx - ax)) / math.hypot(bx - ax, by - ay)
         prof = [(d, q3(c, 1, ctx, sx, sy, d, PROPS)) for d in depth_list]
         profiles.append({'kind': 'depth', 'surface': (sx, sy), 'dist': dist, 'probes': prof})
-    if 'ridge' in spec:
+    if 'ridge' in spec and not spec.get('variable_u'):
         # away from the ridge at fixed depth, including points very close to the ridge (young ages)
         for _ in range(4):
             d = wg.R(rng.uniform(0.005, 0.9) * min(L, fd))
